@@ -314,6 +314,7 @@ pub fn judge(emu: &mut Emu, case: &StepCase, asp: &Aspects, open_quirks: &[Quirk
     emu.set_ccr(case.ccr);
     emu.set_pc(case.pc);
     let _ = emu.drain_msgs();
+    emu.clear_write_log();
     // --- reference
     let pure = run_ref(case, &pre, &[]);
     // --- emulator
@@ -405,13 +406,13 @@ pub fn judge(emu: &mut Emu, case: &StepCase, asp: &Aspects, open_quirks: &[Quirk
     // --- restore
     let touched_periph = pure.overlay.keys().chain(d_emu.keys()).any(|a| is_peripheral_reg(*a))
         || quirk_runs.iter().any(|(_, r)| r.overlay.keys().any(|a| is_peripheral_reg(*a)));
+    emu.restore(pre.map.keys());
+    emu.restore(d_emu.keys());
     if matches!(obs.result, EmuResult::Panic(_)) || touched_periph || emu.dirty_hidden {
-        emu.rebuild();
-    } else {
-        let all_dram = asp.full_dram;
-        emu.restore(pre.map.keys());
-        emu.restore(d_emu.keys());
-        let _ = all_dram;
+        // every bus write of this step is in the log: undo them all, then reset the peripherals in place
+        let log: Vec<u32> = emu.cpu.bus.verif_write_log.clone();
+        emu.restore(log.iter());
+        emu.soft_reset();
     }
 
     Judged {
